@@ -348,20 +348,23 @@ void FailableMemoryAllocator::failNthAllocAt(int allocationNumber, const char* f
 char* FailableMemoryAllocator::alloc_memory(size_t size, const char* file, size_t line)
 {
     currentAllocNumber_++;
+    bool failThisAlloc = false;
     LocationToFailAllocNode* current = head_;
     LocationToFailAllocNode* previous = NULLPTR;
 
     while (current) {
+      LocationToFailAllocNode* next = current->next_;
       if (current->shouldFail(currentAllocNumber_, file, line)) {
-        if (previous) previous->next_ = current->next_;
-        else head_ = current->next_;
+        if (previous) previous->next_ = next;
+        else head_ = next;
 
         free_memory((char*) current, size, __FILE__, __LINE__);
-        return NULLPTR;
+        failThisAlloc = true;
       }
-      previous = current;
-      current = current->next_;
+      else previous = current;
+      current = next;
     }
+    if (failThisAlloc) return NULLPTR;
     return TestMemoryAllocator::alloc_memory(size, file, line);
 }
 
